@@ -8,6 +8,7 @@ import (
 	"runtime"
 	"sort"
 	"sync"
+	"time"
 )
 
 // Main is the entry point of every driver binary: `drv <mode> <jobs.ndjson>`;
@@ -17,6 +18,13 @@ func Main() {
 		fmt.Fprintln(os.Stderr, "usage: drv list | seq <jobs> | sched <jobs> | race <jobs>")
 		os.Exit(2)
 	}
+	// a timer keeps the runtime's "all goroutines are asleep" detector quiet:
+	// a mock that blocks forever is something the driver reports, not a crash
+	go func() {
+		for {
+			time.Sleep(time.Hour)
+		}
+	}()
 	switch os.Args[1] {
 	case "list":
 		names := make([]string, 0, len(registry))
